@@ -146,3 +146,90 @@ Corollary tseitin_cnf_unsat_of_odd_component n E ch (S : Z -> bool) a :
   edges_ok n E = true -> closed_under_edges S E -> charge_parity ch S n = true ->
   cnf_sat a (to_cnf (tseitin_ir n E ch)) = false.
 Proof. intros. rewrite to_cnf_sem by apply tseitin_ok. now apply (tseitin_unsat_of_odd_component n E ch S). Qed.
+
+(* ---------- the same double counting with numbers instead of parities (used for even colouring) ---------- *)
+Definition zsum (f : Z -> Z) (l : list Z) : Z := fold_right Z.add 0 (map f l).
+Lemma zsum_cons f x l : zsum f (x :: l) = f x + zsum f l. Proof. reflexivity. Qed.
+Lemma zsum_ext_in f g l : (forall x, In x l -> f x = g x) -> zsum f l = zsum g l.
+Proof.
+  induction l as [|x t IH]; intros H; [reflexivity|]. rewrite !zsum_cons, H by (now left). f_equal. apply IH.
+  intros y Hy. apply H. now right.
+Qed.
+Lemma zsum_add f g l : zsum (fun v => f v + g v) l = zsum f l + zsum g l.
+Proof. induction l as [|x t IH]; [reflexivity|]. rewrite !zsum_cons, IH. lia. Qed.
+Lemma zsum_scale f l : zsum (fun v => 2 * f v) l = 2 * zsum f l.
+Proof. induction l as [|x t IH]; [reflexivity|]. rewrite !zsum_cons, IH. lia. Qed.
+Lemma zsum_zero l : zsum (fun _ => 0) l = 0.
+Proof. induction l as [|x t IH]; [reflexivity|]. now rewrite zsum_cons, IH. Qed.
+Lemma zsum_delta w (g : Z -> Z) l : NoDup l ->
+  zsum (fun v => if w =? v then g v else 0) l = if in_dec Z.eq_dec w l then g w else 0.
+Proof.
+  induction l as [|x t IH]; intros Hnd; [reflexivity|]. inversion Hnd as [|? ? Hx Ht]; subst.
+  rewrite zsum_cons, (IH Ht). destruct (Z.eqb_spec w x) as [->|Hne].
+  - destruct (in_dec Z.eq_dec x t); [contradiction|]. destruct (in_dec Z.eq_dec x (x :: t)) as [_|Hn]; [lia|exfalso; apply Hn; now left].
+  - destruct (in_dec Z.eq_dec w t) as [Hi|Hi]; destruct (in_dec Z.eq_dec w (x :: t)) as [Hj|Hj]; try lia.
+    + exfalso. apply Hj. now right.
+    + exfalso. destruct Hj as [Hj|Hj]; [congruence|contradiction].
+Qed.
+
+Definition inc_cnt (a : Z -> bool) (L : list (Z * (Z * Z))) (v : Z) : Z :=
+  count_true a (map fst (filter (fun x => snd (snd x) =? v) L) ++ map fst (filter (fun x => fst (snd x) =? v) L)).
+(* chosen edges with their first end in S *)
+Definition esum (a : Z -> bool) (S : Z -> bool) (L : list (Z * (Z * Z))) : Z :=
+  fold_right (fun x acc => (if S (fst (snd x)) then b2z (a (fst x)) else 0) + acc) 0 L.
+
+Lemma inc_cnt_cons a i u w L v : 0 < i ->
+  inc_cnt a ((i, (u, w)) :: L) v = (if w =? v then b2z (a i) else 0) + (if u =? v then b2z (a i) else 0) + inc_cnt a L v.
+Proof.
+  intros Hi. unfold inc_cnt. rewrite !count_true_app. cbn [filter fst snd].
+  destruct (w =? v), (u =? v); cbn [map count_true fst]; rewrite ?lit_true_pos by assumption; lia.
+Qed.
+
+Lemma inc_cnt_sum a (S : Z -> bool) n L :
+  (forall i u w, In (i, (u, w)) L -> 0 < i /\ 1 <= u <= n /\ 1 <= w <= n /\ S u = S w) ->
+  zsum (fun v => if S v then inc_cnt a L v else 0) (rng n) = 2 * esum a S L.
+Proof.
+  induction L as [|[i [u w]] L IH]; intros H.
+  - cbn [esum fold_right]. rewrite (zsum_ext_in _ (fun _ => 0)); [now rewrite zsum_zero|].
+    intros v _. destruct (S v); reflexivity.
+  - destruct (H i u w (or_introl eq_refl)) as [Hi [Hu [Hw HS]]].
+    rewrite (zsum_ext_in _ (fun v => ((if w =? v then (if S v then b2z (a i) else 0) else 0) +
+                                      (if u =? v then (if S v then b2z (a i) else 0) else 0)) +
+                                     (if S v then inc_cnt a L v else 0))).
+    2:{ intros v _. rewrite inc_cnt_cons by assumption. destruct (S v), (w =? v), (u =? v); lia. }
+    rewrite zsum_add, IH by (intros; apply H; now right). rewrite zsum_add, !zsum_delta by apply NoDup_rng.
+    destruct (in_dec Z.eq_dec w (rng n)) as [_|Hn]; [|exfalso; apply Hn; now apply In_rng].
+    destruct (in_dec Z.eq_dec u (rng n)) as [_|Hn]; [|exfalso; apply Hn; now apply In_rng].
+    cbn [esum fold_right fst snd]. fold (esum a S L). rewrite HS. destruct (S w); lia.
+Qed.
+
+Theorem incidence_count_double a n E (S : Z -> bool) :
+  edges_ok n E = true -> closed_under_edges S E ->
+  zsum (fun v => if S v then count_true a (incident E v) else 0) (rng n) = 2 * esum a S (eidx E).
+Proof.
+  intros Hok Hcl. change (zsum (fun v => if S v then inc_cnt a (eidx E) v else 0) (rng n) = 2 * esum a S (eidx E)).
+  apply inc_cnt_sum. intros i u w Hin. apply eidx_in in Hin as [Hi He].
+  pose proof (edges_ok_in n E u w Hok He). specialize (Hcl (u, w) He). cbn [fst snd] in Hcl. repeat split; try lia. exact Hcl.
+Qed.
+
+Lemma esum_all_true (S : Z -> bool) : forall E ids,
+  esum (fun _ => true) S (combine ids E) <= len (filter (fun e => S (fst e)) E) /\
+  (length ids = length E -> esum (fun _ => true) S (combine ids E) = len (filter (fun e => S (fst e)) E)).
+Proof.
+  induction E as [|e E IH]; intros ids.
+  - destruct ids; cbn; split; intros; lia.
+  - destruct ids as [|i ids]; [cbn; split; [apply len_nonneg|intros; discriminate]|].
+    cbn [combine esum fold_right fst snd filter]. fold (esum (fun _ => true) S (combine ids E)).
+    destruct (IH ids) as [H1 H2]. destruct (S (fst e)); rewrite ?len_cons; cbn [b2z]; split; try lia.
+    + intros Hl. rewrite H2 by (cbn in Hl; lia). lia.
+    + intros Hl. rewrite H2 by (cbn in Hl; lia). lia.
+Qed.
+Lemma esum_eidx_true S E : esum (fun _ => true) S (eidx E) = len (filter (fun e => S (fst e)) E).
+Proof.
+  unfold eidx. apply esum_all_true. unfold rng. rewrite length_zrange. pose proof (len_nonneg E). unfold len in *. lia.
+Qed.
+Lemma count_true_all_pos ls : (forall l, In l ls -> 0 < l) -> count_true (fun _ => true) ls = len ls.
+Proof.
+  induction ls as [|x t IH]; intros H; [reflexivity|]. cbn [count_true]. rewrite len_cons, lit_true_pos by (apply H; now left).
+  rewrite IH by (intros; apply H; now right). reflexivity.
+Qed.
